@@ -42,6 +42,38 @@ func c20wGen(rt *rapid.T) wProg {
 		}
 		p.Ops = append(p.Ops[:at], append(ins, p.Ops[at:]...)...)
 	}
+	if gPct(rt, 45) {
+		// a call between users 0 and 1: the events relayed to either party name the topic too
+		p.Cfg.Calls, p.Cfg.CallTimeout = true, 30
+		a, b := -1, -1
+		for s, u := range p.Sess {
+			if u == 0 && a < 0 {
+				a = s
+			}
+			if u == 1 && b < 0 {
+				b = s
+			}
+		}
+		if a >= 0 && b >= 0 {
+			if gPct(rt, 50) {
+				a, b = b, a
+			}
+			ta, tb := fmt.Sprintf("p%d", 1-p.Sess[a]), fmt.Sprintf("p%d", 1-p.Sess[b])
+			ins := []wOp{{K: "sub", S: a, T: ta}, {K: "sub", S: b, T: tb},
+				{K: "pub", S: a, T: ta, A: "call", H: map[string]any{"webrtc": "started", "mime": c15Mime}}}
+			if gPct(rt, 70) {
+				ins = append(ins, wOp{K: "note", S: b, T: tb, A: "call", B: "ringing", M: 1})
+			}
+			if gPct(rt, 70) {
+				ins = append(ins, wOp{K: "note", S: b, T: tb, A: "call", B: "accept", M: 1},
+					wOp{K: "note", S: a, T: ta, A: "call", B: "offer", M: 1, H: map[string]any{"sdp": "x"}},
+					wOp{K: "note", S: b, T: tb, A: "call", B: "answer", M: 1, H: map[string]any{"sdp": "y"}})
+			}
+			ins = append(ins, wOp{K: "note", S: gPick(rt, []int{a, b}, "hang"), T: gPick(rt, []string{"Q01"}, "hn"), A: "call", B: "hang-up", M: 1})
+			at := gInt(rt, 1, len(p.Ops), "callat")
+			p.Ops = append(p.Ops[:at], append(ins, p.Ops[at:]...)...)
+		}
+	}
 	return p
 }
 
@@ -59,6 +91,13 @@ type c20wObs struct {
 }
 
 func (o *c20wObs) Before(w *wWorld, op *wOp) {
+	if w.noteSeq == nil {
+		// a call event names the invitation: the latest message of the topic
+		w.noteSeq = func(route string, sel int) int {
+			seq, _, _ := mem.A.TopicCounters(route)
+			return seq
+		}
+	}
 	snap := mem.A.Snapshot()
 	o.preMsgs = len(snap.Msgs)
 	o.preSubs = nil
